@@ -67,29 +67,47 @@ def confirm(src, sid):
 
 
 def run(sid, checks, tier):
+    """Runs the checks against the seeded change without touching /repo: the patch is applied in a scratch worktree and a
+    scratch copy of /verif (harness go.mod pointing at that worktree) runs the checks."""
     d = os.path.join(ROOT, "seeded", sid)
-    rc, out = sh("git -C /repo status --porcelain")
-    if out.strip():
-        print("/repo is dirty; refusing"); return 2
-    rc, out = sh("git -C /repo apply %s/patch.diff" % d)
+    wt = "/tmp/wtm/" + sid
+    vr = "/tmp/vr/" + sid
+    sh("git -C /repo worktree remove --force %s" % wt)
+    shutil.rmtree(wt, ignore_errors=True)
+    shutil.rmtree(vr, ignore_errors=True)
+    rc, out = sh("git -C /repo worktree add --detach %s HEAD" % wt)
     if rc != 0:
-        print("patch does not apply to /repo:", out); return 2
+        print(out); return 2
     verdicts = {}
     try:
+        rc, out = sh("git apply %s/patch.diff" % d, cwd=wt)
+        if rc != 0:
+            print("patch does not apply:", out); return 2
+        os.makedirs(vr)
+        sh("rsync -a --exclude .git --exclude .work --exclude replays --exclude evidence --exclude seeded %s/ %s/" % (ROOT, vr))
+        gm = os.path.join(vr, "harness", "go.mod")
+        txt = open(gm).read().replace("=> /repo", "=> " + wt)
+        open(gm, "w").write(txt)
+        env = dict(ENV, VERIF_REPO=wt, VERIF_ROOT=vr)
         for c in checks:
             t0 = time.time()
-            rc, out = sh("./run %s %s" % (c, tier), cwd=ROOT, timeout=7200)
-            viol = [l for l in out.splitlines() if l.startswith("VIOLATION")]
+            p = subprocess.run("./run %s %s" % (c, tier), shell=True, cwd=vr, env=env, stdout=subprocess.PIPE, stderr=subprocess.STDOUT, text=True, timeout=7200)
+            rc, out = p.returncode, p.stdout
+            lines = out.splitlines()
+            viol = [l for l in lines if l.startswith("VIOLATION")]
             first = ""
-            for i, l in enumerate(out.splitlines()):
+            for i, l in enumerate(lines):
                 if l.startswith("VIOLATION"):
-                    first = "\n".join(out.splitlines()[i:i + 2])[:600]
+                    first = "\n".join(lines[i:i + 2])[:600]
                     break
+            if rc == 2:
+                first = "\n".join([l for l in lines if l.startswith("BROKEN")][:2])[:600]
             verdicts[c] = {"tier": tier, "exit": rc, "violations": len(viol), "first": first, "wall_s": round(time.time() - t0, 1)}
             print(sid, c, tier, "exit", rc, "violations", len(viol), first[:300].replace("\n", " | "))
     finally:
-        sh("git -C /repo checkout -- .")
-        sh("git -C /repo clean -fdq")
+        sh("git -C /repo worktree remove --force %s" % wt)
+        shutil.rmtree(wt, ignore_errors=True)
+        shutil.rmtree(vr, ignore_errors=True)
     mp = os.path.join(d, "meta.json")
     meta = json.load(open(mp))
     meta.setdefault("checks", {}).update(verdicts)
